@@ -303,6 +303,59 @@ def r13_copied_take(text):
         text = text[:m.start()] + new + text[m.end():]
 
 
+def r15_iter_all_eq(text):
+    """`X.iter().all(|V| *V == LIT)` => `iter_all_eq(&X, LIT)`: closures over iterators are outside Verus' subset; the template
+    defines `iter_all_eq` (a verified loop) with the meaning of Iterator::all for this predicate."""
+    n = 0
+    while True:
+        m = re.search(r'\b((?:self\.)?[A-Za-z_][A-Za-z0-9_]*)\.iter\(\)\.all\(\|(\w+)\| \*\2 == (\w+)\)', text)
+        if not m:
+            return text, n
+        n += 1
+        text = text[:m.start()] + f'iter_all_eq(&{m.group(1)}, {m.group(3)})' + text[m.end():]
+
+
+def r16_map_collect_tail(text):
+    """a line `X.iter().map(|V| E).collect()` (tail expression of a block) => `let mut o__N = Vec::new(); for V in X.iter() { o__N.push(E); } o__N`
+    (Iterator::map + collect into a Vec, written as the loop it denotes)."""
+    n = 0
+    while True:
+        m = re.search(r'(?m)^(\s*)((?:self\.)?[A-Za-z_][A-Za-z0-9_]*)\.iter\(\)\.map\(\|(\w+)\| ([^|;{}]+)\)\.collect\(\)[ \t]*$', text)
+        if not m:
+            return text, n
+        n += 1
+        ind, x, v, e = m.groups()
+        o = f'o__{n}'
+        new = f'{ind}let mut {o} = Vec::new(); for {v} in {x}.iter() {{ {o}.push({e}); }} {o}'
+        text = text[:m.start()] + new + text[m.end():]
+
+
+def r17_match_arm_ref_guard(text):
+    """match arm `Some(&V) if GUARD => {}` => `Some(V) if GUARD[V := (*V)] => {}` (Verus has no ref patterns; the arm body is empty,
+    so only the single-line guard mentions V)."""
+    n = 0
+    while True:
+        m = re.search(r'(?m)^(\s*)Some\(&(\w+)\) if ([^\n{}]*?) => \{\}', text)
+        if not m:
+            return text, n
+        n += 1
+        ind, v, guard = m.groups()
+        guard2 = re.sub(r'\b' + re.escape(v) + r'\b', f'(*{v})', guard)
+        text = text[:m.start()] + f'{ind}Some({v}) if {guard2} => {{}}' + text[m.end():]
+
+
+def r18_bool_bitand(text):
+    """`A[I] & B[J]` on indexed operands => `{ let l__N = A[I]; let r__N = B[J]; l__N && r__N }` (Verus has no `&` on bool; both
+    operands are still evaluated, so every index check of the original is kept)."""
+    n = 0
+    while True:
+        m = re.search(r'(\b\w+\[\w+\]) & (\w+\[\w+\])', text)
+        if not m:
+            return text, n
+        n += 1
+        text = text[:m.start()] + f'{{ let l__{n} = {m.group(1)}; let r__{n} = {m.group(2)}; l__{n} && r__{n} }}' + text[m.end():]
+
+
 def r10_windows2(text):
     """`for W in X.windows(2) {` => `for w__N in 0..(if X.len() >= 2 { X.len() - 1 } else { 0 }) { let W = [X[w__N], X[w__N + 1]];`
     (Verus has no specification of slice::Windows; for Copy elements W[0], W[1] read the same values)."""
@@ -364,7 +417,7 @@ def r7_param_patterns(text):
     return _apply_edits(text, edits), n
 
 
-RULES = [('R0', r0_visibility_and_stats), ('R1', r1_ref_patterns), ('R7', r7_param_patterns), ('R8', r8_assert_eq), ('R9', r9_subslice_copy), ('R10', r10_windows2), ('R11', r11_collect), ('R12', r12_subslice_to_subslice), ('R13', r13_copied_take),
+RULES = [('R0', r0_visibility_and_stats), ('R1', r1_ref_patterns), ('R7', r7_param_patterns), ('R8', r8_assert_eq), ('R9', r9_subslice_copy), ('R10', r10_windows2), ('R11', r11_collect), ('R12', r12_subslice_to_subslice), ('R13', r13_copied_take), ('R15', r15_iter_all_eq), ('R16', r16_map_collect_tail), ('R17', r17_match_arm_ref_guard), ('R18', r18_bool_bitand),
          ('R2', r2_array_literal_loops), ('R3', r3_zip_enumerate)]
 
 
